@@ -89,7 +89,11 @@ class SortableDict(col.MutableMapping):
                 raise KeyError('%r is duplicate' % key)
 
             if index is not None:
-                # We are re-locating.
+                # We are re-locating.  A position relative to another key was
+                # looked up with this key still present: account for its
+                # removal so that it lands immediately before/after pos_key.
+                if (pos_key is not None) and (self.index(key) < index):
+                    index -= 1
                 del self[key]
             else:
                 # We are updating
